@@ -77,6 +77,7 @@ if len(sys.argv) > 1 and os.path.exists(sys.argv[1]):
             sweep[m.group(1)] = (int(m.group(3)), (m.group(4) or "").strip())
 
 root = os.path.join(os.path.dirname(os.path.abspath(__file__)), "..", "seeded")
+rows = []
 for name, (change, needs, first) in sorted(ROUND2.items()):
     d = os.path.join(root, name)
     if not os.path.isdir(d):
@@ -100,3 +101,10 @@ for name, (change, needs, first) in sorted(ROUND2.items()):
     with open(os.path.join(d, "meta.json"), "w") as f:
         json.dump(meta, f, indent=1)
     print(name, rc, sig)
+    rows.append("| %s | %s (%s) | %s | %s |" % (name, change, needs, ("`%s`" % sig) if sig else "-", first))
+
+design = os.path.join(root, "..", "DESIGN.md")
+text = open(design).read()
+a, b = text.index("<!-- ROUND2-BEGIN -->"), text.index("<!-- ROUND2-END -->")
+text = text[:a] + "<!-- ROUND2-BEGIN -->\n" + "\n".join(rows) + "\n" + text[b:]
+open(design, "w").write(text)
